@@ -1,6 +1,6 @@
 (* Running the regenerated statement list of vbint.ReadFrom is Stream.vb_stream. *)
-From MQ Require Import Model.ReadIR Proofs.WireDecIRP.
-From Coq Require Import String Lia Arith.
+From MQ Require Import Model.ReadIR Proofs.WireDecIRP Proofs.BytesP.
+From Coq Require Import String Lia Arith ZArith ZifyN ZifyNat ZifyBool.
 Local Open Scope nat_scope.
 
 Lemma rexec_list_inner l : forall s,
@@ -96,4 +96,84 @@ Proof.
   - contradiction.
   - rewrite H. reflexivity.
   - rewrite H. reflexivity.
+Qed.
+
+(* the count ReadFrom returns is the number of bytes it took from the reader *)
+Local Open Scope N_scope.
+
+Lemma read_call_len n s bs e s' : read_call n s = (bs, e, s') -> len bs <= n.
+Proof.
+  unfold read_call. destruct s as [|[c ce] s0].
+  - intros H. injection H as <- _ _. rewrite len_nil. lia.
+  - destruct (len c <=? n) eqn:E.
+    + intros H. injection H as <- _ _. apply N.leb_le in E. exact E.
+    + intros H. injection H as <- _ _. unfold len. rewrite firstn_length. lia.
+Qed.
+
+Lemma read_full_loop_len : forall fuel need acc s tr bs e s' tr',
+  len acc <= need ->
+  read_full_loop fuel need acc s tr = Some (bs, e, s', tr') ->
+  len bs <= need /\ (e = None -> len bs = need) /\ (e <> None -> len bs < need).
+Proof.
+  induction fuel as [|fuel IH]; intros need acc s tr bs e s' tr' Hacc H; [discriminate|].
+  cbn [read_full_loop] in H.
+  destruct (read_call (need - len acc) s) as [[cb ce] cs] eqn:Hc.
+  apply read_call_len in Hc.
+  assert (La : len (acc ++ cb) <= need) by (rewrite len_app; lia).
+  destruct (need <=? len (acc ++ cb)) eqn:Hd.
+  - injection H as <- <- _ _. apply N.leb_le in Hd. repeat split; try lia. congruence.
+  - apply N.leb_gt in Hd. destruct ce as [ce|].
+    + destruct ce; injection H as <- <- _ _; repeat split; try lia; try discriminate; congruence.
+    + eapply IH; eassumption.
+Qed.
+
+Local Open Scope nat_scope.
+
+Lemma read_full_1 s bs e s' t : read_full 1 s = Some (bs, e, s', t) ->
+  match e with None => List.length bs = 1 | Some _ => bs = [] end.
+Proof.
+  unfold read_full. intros H. apply read_full_loop_len in H; [|rewrite len_nil; lia].
+  destruct H as (H1 & H2 & H3). destruct e as [e|].
+  - assert (len bs < 1)%N by (apply H3; discriminate). destruct bs; [reflexivity|]. rewrite len_cons in H. lia.
+  - specialize (H2 eq_refl). unfold len in H2. lia.
+Qed.
+
+Definition count_ok (r : rres) : Prop :=
+  match r with
+  | RF (RNext q) | RF (RRet q _) | RF (RBrk q) | RPanicF q => q_i q = List.length (q_got q)
+  | RFuelF => True
+  end.
+
+Lemma rloop_vb_count f : forall mult value s tr got i eb d0 v,
+  i = List.length got ->
+  count_ok (rloop vb_rbody f (mkr s tr got [d0] i mult value eb v)).
+Proof.
+  induction f as [|f IH]; intros mult value s tr got i eb d0 v Hi; [exact I|].
+  cbn [rloop]. unfold vb_rbody at 1. rhead.
+  change (len [d0]) with 1%N.
+  destruct (read_full 1 s) as [[[[bs [e|]] s'] t]|] eqn:Hr; [| |exact I].
+  - apply read_full_1 in Hr. subst bs. repeat rhead. cbn [count_ok q_i q_got]. rewrite app_nil_r. exact Hi.
+  - apply read_full_1 in Hr.
+    destruct bs as [|b [|b2 bs']]; try discriminate Hr.
+    repeat rhead.
+    destruct (2097152 <? mult)%N; [repeat rhead; cbn [count_ok q_i q_got]; rewrite app_length; cbn; lia|].
+    repeat rhead.
+    destruct (N.land (b2n b) 128 =? 0)%N.
+    + repeat rhead. cbn [count_ok q_i q_got]. rewrite app_length. cbn. lia.
+    + repeat rhead. fold vb_rbody. apply IH. rewrite app_length. cbn. lia.
+Qed.
+
+Theorem vb_read_count s o s' t g n :
+  run_vbread vb_read_prog s = Some (o, s', t, g, n) -> n = List.length g.
+Proof.
+  unfold run_vbread, vb_read_prog. fold vb_rbody.
+  rhead. rhead. rhead. rhead. rewrite rexec_list_cons, rexec_for.
+  change read_fuel with 6.
+  pose proof (rloop_vb_count 6 1%N 0%N s [] [] 0 0%N x00 None eq_refl) as H.
+  destruct (rloop vb_rbody 6 _) as [[q|q e|q]|q|]; cbn [count_ok] in H.
+  - repeat rhead. intros E. injection E as _ _ _ <- <-. exact H.
+  - destruct e as [e|]; [|destruct (q_v q)]; intros E; injection E as _ _ _ <- <-; exact H.
+  - intros E; injection E as _ _ _ <- <-; exact H.
+  - intros E; injection E as _ _ _ <- <-; exact H.
+  - discriminate.
 Qed.
